@@ -1,11 +1,11 @@
 #!/venv/bin/python
 # replay for obligation aioftp.server:retr_worker@retr::ThrottleStreamIO.__aexit__/no-wait-on-the-peer-after-cancellation:writer.wait_closed
-# path: conn.logged-present=T.conn.passive_server-present=T.wait_for-outcome=0.backend.exists-fault=0.if@4=F.backend.is_file-fault=0.if@4=F.conn.user-present=T.conn.user-done=T.if@6=F.conn.data_connection-present=T.cancel@wait_for(gather)=0.wait_for-outcome=0.conn.data_connection-done=T.cancel@backend._open=0.backend._open-fault=0.if@5=T.cancel@backend.seek=0.backend.seek-fault=0.cancel@backend.read=0.backend.read-fault=0.if@2=T.cancel@drain=1
+# path: conn.logged-present=T.conn.passive_server-present=T.wait_for-outcome=0.backend.exists-fault=0.if@4=F.backend.is_file-fault=0.if@4=F.conn.user-present=T.conn.user-done=T.if@6=F.conn.data_connection-present=T.wait_future_timeout-is-None=0.cancel@wait_for(gather)=0.wait_for-outcome=0.conn.data_connection-done=T.cancel@backend._open=0.backend._open-fault=0.if@5=T.cancel@backend.seek=0.backend.seek-fault=0.cancel@backend.read=0.backend.read-fault=0.if@2=T.cancel@drain=0.drain-outcome=1.cancel@backend.close=1
 # run: AIOFTP_REPO=/repo /venv/bin/python /verif/replays/C12_aioftp.server_retr_worker_retr_ThrottleStreamIO.__aexit___no-wait-on-the-peer-after-cancellation_writer.wait_closed.py
 import os, sys
 sys.path.insert(0, os.path.join(os.environ.get("AIOFTP_REPO", "/repo"), "src"))
 OBLIGATION = 'aioftp.server:retr_worker@retr::ThrottleStreamIO.__aexit__/no-wait-on-the-peer-after-cancellation:writer.wait_closed'
-MODEL = {'restart_offset!10': 1, 'data_connection_present!21': True, 'block_size!0': 1, 'data_connection_done!22': True, 'filedata!68': 'A', 'dc_accepted!46': False, 'dc_accepted!43': False, 'dc_accepted!37': False, 'dc_accepted!33': False, 'dc_accepted!30': False, 'dc_accepted!42': False, 'dc_accepted!36': False, 'dc_accepted!32': False, 'dc_accepted!29': False, 'user_present!11': True, 'fsbool!35': True, 'user_done!12': True, 'current_directory_present!15': True, 'current_directory_done!16': True, 'passive_server_present!19': True, 'readable!40': True, 'logged_present!13': True, 'passive_server_done!20': True, 'logged_done!14': True, 'fsbool!39': True, 'auth_ok!27': True}
+MODEL = {'restart_offset!10': 1, 'filedone!67': '', 'file_before!53': 'BA', 'wait_future_timeout!45': '0/1', 'block_size!0': 1, 'filerest!74': '', 'data_connection_done!22': True, 'dc_accepted!36': True, 'filedata!73': 'A', 'dc_accepted!47': False, 'dc_accepted!43': False, 'dc_accepted!33': False, 'dc_accepted!37': False, 'dc_accepted!30': False, 'dc_accepted!32': False, 'dc_accepted!42': False, 'dc_accepted!29': False, 'data_connection_present!21': False, 'user_present!11': True, 'user_done!12': True, 'fsbool!35': True, 'passive_server_done!20': True, 'logged_done!14': True, 'fsbool!39': True, 'fileremaining!68': 'A', 'current_directory_present!15': True, 'current_directory_done!16': True, 'passive_server_present!19': True, 'logged_present!13': True, 'readable!40': True, 'written!65': '', 'auth_ok!27': True}
 SOLVER_NOTE = ''
 
 print("obligation", OBLIGATION, "failed; no concrete failing input could be constructed automatically")
